@@ -313,38 +313,55 @@ func runC16(c *Ctx) {
 			}
 			return true
 		})
-		okWin := false
+		// the window: `end = start+count` and `next = search[start+count]` exactly where more keys remain
+		// (len(search) > start+count), `end = len(search)` exactly where they do not — read from the guard atoms of each
+		// assignment, so nesting, swapped branches and negated comparisons are the same thing
+		more := func(at guardAtom) int {
+			d := nos(roleString(ginfo, at.Expr, wr))
+			pol := 0
+			switch d {
+			case "len(search)>start+count", "start+count<len(search)":
+				pol = 1
+			case "len(search)<=start+count", "start+count>=len(search)":
+				pol = -1
+			}
+			if at.Neg {
+				pol = -pol
+			}
+			return pol
+		}
+		var endMore, nextMore, endLast, stray bool
 		ast.Inspect(g.Decl.Body, func(nd ast.Node) bool {
-			ifs, ok := nd.(*ast.IfStmt)
-			if !ok {
+			as, ok := nd.(*ast.AssignStmt)
+			if !ok || len(as.Lhs) != 1 || len(as.Rhs) != 1 {
 				return true
 			}
-			d := nos(roleString(ginfo, ifs.Cond, wr))
-			if d == "len(search)>start+count" {
-				var thenEnd, thenNext, elseEnd string
-				for _, st := range ifs.Body.List {
-					if as, ok := st.(*ast.AssignStmt); ok {
-						switch roleString(ginfo, as.Lhs[0], wr) {
-						case "end":
-							thenEnd = nos(roleString(ginfo, as.Rhs[0], wr))
-						case "next":
-							thenNext = nos(roleString(ginfo, as.Rhs[0], wr))
-						}
-					}
+			role := roleString(ginfo, as.Lhs[0], wr)
+			if role != "end" && role != "next" {
+				return true
+			}
+			rhs := nos(roleString(ginfo, as.Rhs[0], wr))
+			pol := 0
+			atoms, _ := atomsAt(g, g.Decl.Body, as.Pos())
+			for _, at := range atoms {
+				if m := more(at); m != 0 {
+					pol = m
 				}
-				if eb, ok := ifs.Else.(*ast.BlockStmt); ok {
-					for _, st := range eb.List {
-						if as, ok := st.(*ast.AssignStmt); ok && roleString(ginfo, as.Lhs[0], wr) == "end" {
-							elseEnd = nos(roleString(ginfo, as.Rhs[0], wr))
-						}
-					}
-				}
-				if thenEnd == "start+count" && thenNext == "search[start+count]" && elseEnd == "len(search)" {
-					okWin = true
-				}
+			}
+			switch {
+			case role == "end" && rhs == "start+count" && pol == 1:
+				endMore = true
+			case role == "next" && rhs == "search[start+count]" && pol == 1:
+				nextMore = true
+			case role == "end" && rhs == "len(search)" && pol == -1:
+				endLast = true
+			case role == "next" && rhs == `""`:
+			default:
+				stray = true
 			}
 			return true
 		})
+		okWin := endMore && nextMore && endLast && !stray
 		c.check(okWin && okSlice, "keysprefix.page-window", g.ID, p.Pos(g.Decl.Pos()), "page = search[start:end], end = start+count and next = search[start+count] when more keys remain, else end = len(search)", "the page window / continuation token of KeysPrefix changed shape: pages may overlap, skip a key or overrun")
 		// prefix test on the rooted path
 		okPref := false
